@@ -179,6 +179,8 @@ def run(cx, rep):
     from rules.c01 import partial_projection_rule
     partial_projection_rule(cx, rep, "C11.4")
     # ---------------------------------------------------------------- C11.3
+    rep.rule("C11.5", "open-object inclusion never decides which members of a printed union are kept")
+    open_inclusion_callers_rule(cx, rep, "C11.5")
     rep.rule("C11.3", "conjunctive delegation counts the keys of all members")
     for cname, mname, fn in ts_common.family_methods(fam, ("validate",)):
         ps = ts_common.fn_params(fn)
@@ -211,3 +213,34 @@ def run(cx, rep):
             rep.ob("C11.3", "%s.%s" % (cname, mname), not forwards_flag,
                    "%s.validate requires every member of `%s` to accept the same input and forwards the strictness flag unchanged: each object member then rejects the keys declared by the other members, so an intersection of named object types rejects every value in strict mode" % (cname, coll),
                    mod.loc(loop), sample={"class": cname, "members": coll})
+
+
+
+def open_inclusion_callers_rule(cx, rep, rid):
+    """The semantic subtype test treats object types as OPEN ({id, meta} <= {id}): that is the right reading for
+    TypeScript's `extends`, and in default mode the runtime agrees (surplus keys are ignored).  In strict mode an object
+    validator accepts its declared keys only, so a union member that is semantically covered by another one still
+    accepts values the covering member rejects.  Using the inclusion test to simplify a Runtype (drop covered union
+    members, merge `same` members) therefore changes which values strict mode accepts.  Decided (who-may-call): the
+    inclusion / equality tests of the engine (`is_subtype`, `is_same_type` on semantic types) are called only from the
+    engine itself and from the frontend's conditional-type evaluation - not from the Runtype simplifiers
+    (ast/), the materialiser (subtyping/to_schema.rs) or the printer (print/)."""
+    import re as _re
+    F = cx.rs
+    TEST = _re.compile(r"SemTypeOps::(is_subtype|is_same_type)$")
+    ok_sites, n = 0, 0
+    for g in sorted(F.fns):
+        f = F.fns[g]
+        if not f.mir or f.crate != "beff_core":
+            continue
+        for c in f.calls:
+            if not TEST.search((c.path or "").split("<")[0] if False else (c.path or "")):
+                continue
+            n += 1
+            file = f.file or ""
+            allowed = ("/src/frontend/" in file) or ("/src/subtyping/" in file and not file.endswith("to_schema.rs")) or file.endswith("test_tools.rs") or "/tests/" in file
+            ok_sites += 1 if allowed else 0
+            rep.ob(rid, "%s->%s" % (_re.sub(r"(::\{closure#\d+\})+$", "", g), c.path.rsplit("::", 1)[-1]), allowed,
+                   "%s calls %s: the engine's inclusion test reads object types as open, so simplifying a printed type with it (dropping a union member that another member covers, merging members it calls equal) removes the only member that accepts certain keys - in strict mode values whose every key is declared by some union member are then rejected" % (g, c.path),
+                   "%s:%s" % (c.file, c.line), sample={"caller": g, "callee": c.path})
+    rep.floor(rid, "call sites of the inclusion tests", n, 1)
